@@ -221,6 +221,39 @@ def extra_cases(rng, tier):
     for nrm in (None, "backward", "ortho", "forward"):
         for fn_ in ("fft", "ifft", "fft2", "ifft2", "fftn", "ifftn", "rfft", "rfft2", "rfftn", "irfft", "irfft2", "irfftn"):
             add("fft." + fn_, "norm=%r" % (nrm,), (lambda m, z, fn_=fn_, nrm=nrm: getattr(m.fft, fn_)(z, norm=nrm)), [x44], [0], False)
+    # ---- (0j) rows pinning repairs made after sub-agent reports ----
+    kink("absolute", "entries equal to 0", (lambda m, z: m.absolute(z)), [onp.array([0.0, 1.5, -2.0, 0.0])])
+    add("absolute", "generic point", (lambda m, z: m.absolute(z)), [R.distinct(rng, (2, 3))], [0], False)
+    c333 = R.distinct(rng, (3, 3, 3))
+    for name in ("max", "min", "amax", "amin", "sum", "mean", "var", "std", "prod", "cumsum"):
+        for ax in (onp.int64(1), onp.intp(0), onp.int32(-1)):
+            add(name, "cubic input, axis=np.%s(%d)" % (type(ax).__name__, int(ax)), (lambda m, z, name=name, ax=ax: getattr(m, name)(z, axis=ax)), [c333], [0], False)
+            if name in ("max", "min", "sum", "mean"):
+                add(name, "cubic input, keepdims, axis=np.%s(%d)" % (type(ax).__name__, int(ax)),
+                    (lambda m, z, name=name, ax=ax: getattr(m, name)(z, axis=ax, keepdims=True)), [c333], [0], False)
+    xs3 = onp.array([1.0, 3.0, -1.0])
+    add("clip", "array lower bound broadcasting x", (lambda m, z: m.clip(z, onp.array([[0.0, 0.5, -2.0], [2.0, -1.0, -3.0]]), 2.5)), [xs3], [0], False)
+    add("clip", "array upper bound broadcasting x", (lambda m, z: m.clip(z, -5.0, onp.array([[0.5], [2.0]]))), [xs3], [0], False)
+    add("clip", "both bounds arrays of a larger rank", (lambda m, z: m.clip(z, onp.full((2, 1, 3), -0.5), onp.full((2, 2, 3), 2.5))), [xs3], [0], False)
+    for sh, tgt in (((1, 3), (0, 3)), ((1, 1), (0, 0)), ((2, 1), (2, 0)), ((1, 3), (1, 3)), ((1, 3), (4, 3))):
+        add("broadcast_to", "%s -> %s" % (sh, tgt), (lambda m, z, tgt=tgt: m.broadcast_to(z, tgt)), [R.iarr(rng, sh)], [0], True, modes=("rev",))
+    hp = R.half_ints(rng, (2, 3))
+    for dt in (int, "int64", bool, onp.int32, "uint8"):
+        add("astype", "to %s (piecewise constant)" % (dt if isinstance(dt, str) else dt.__name__), (lambda m, z, dt=dt: z.astype(dt) * 1.0 + 0.0 * z), [hp], [0], False, modes=("rev",))
+    for dt in (float, "float32", complex):
+        add("astype", "to %s" % (dt if isinstance(dt, str) else dt.__name__), (lambda m, z, dt=dt: z.astype(dt) * 2.0), [R.iarr(rng, (2, 3))], [0], True, modes=("rev",))
+    i23b = R.iarr(rng, (2, 3))
+    for nm, f in (("ravel(x.T, order='A')", lambda m, z: m.ravel(z.T, order="A")), ("reshape(x.T, (6,), order='A')", lambda m, z: m.reshape(z.T, (6,), order="A")),
+                  ("reshape(x.T, (2,3), order='A')", lambda m, z: m.reshape(z.T, (2, 3), order="A")), ("ravel(x, order='A')", lambda m, z: m.ravel(z, order="A")),
+                  ("x.T.ravel('A')", lambda m, z: z.T.ravel("A")), ("swapaxes then reshape order='A'", lambda m, z: m.reshape(m.swapaxes(z, 0, 1), (3, 2), order="A")),
+                  ("reshape(x.T.copy-free slice, order='A')", lambda m, z: m.reshape(z.T[::-1], (6,), order="A"))):
+        add("reshape", nm, f, [i23b], [0], True)
+    add("reshape", "order='A' of a Fortran-ordered argument", (lambda m, z: m.reshape(z, (3, 2), order="A")), [onp.asfortranarray(i23b)], [0], True)
+    add("ravel", "order='A' of a Fortran-ordered argument", (lambda m, z: m.ravel(z, order="A")), [onp.asfortranarray(i23b)], [0], True)
+    for k_ in (2, 3, 4):
+        add("array", "list of traced scalars, ndmin=%d" % k_, (lambda m, a, b, k_=k_: m.array([a, 2.0, b], ndmin=k_)), [1.5, -0.5], [0, 1], True)
+        add("array", "list of traced rows, ndmin=%d" % k_, (lambda m, a, k_=k_: m.array([a, a * 2.0], ndmin=k_)), [R.iarr(rng, (3,))], [0], True)
+        add("array", "nested list of entries, ndmin=%d" % k_, (lambda m, a, k_=k_: m.array([[a[0], 1.0], [2.0, a[1]]], ndmin=k_)), [R.iarr(rng, (2,))], [0], True)
     # ---- (a) the same array object in two argument positions: the derivative is the sum over both positions ----
     v4 = R.distinct(rng, (4,))
     p4 = R.positive(rng, (4,))
